@@ -216,7 +216,7 @@ def execute(case):
       from harness.props import C07
       try:
         req = codeparse.program_of(src, dict(mod.__dict__), auto=True, entry='prog', args={'a': a, 'b': 3},
-                                   opaque_calls=('inner_inline', 'inner_opaque', 'plain_helper', 'helper'))
+                                   opaque_calls=())
         enc_req, _enc = graphs.encode(cfg, with_defaults=False, atom_pred=codeparse.leaf_atom_pred)
         obs['m_input'] = codeparse.canon_heap([C07.project_obj(o) for o in enc_req['objs']], enc_req['root'])
       except codeparse.Unsupported as e:
